@@ -11,6 +11,7 @@ package py
 
 import (
 	"fmt"
+	"runtime"
 )
 
 // Types for methods
@@ -134,8 +135,24 @@ func (m *Method) Internal() InternalMethod {
 	return InternalMethodNone
 }
 
+// Converts the failed type assertion of a method applied to a receiver
+// of the wrong type (e.g. str.upper(1)) into a TypeError
+//
+// Must be called as a defer function
+func (m *Method) catchBadReceiver(res *Object, err *error) {
+	if r := recover(); r != nil {
+		if _, ok := r.(*runtime.TypeAssertionError); ok {
+			*res = nil
+			*err = ExceptionNewf(TypeError, "descriptor '%s' applied to an object of the wrong type", m.Name)
+			return
+		}
+		panic(r)
+	}
+}
+
 // Call the method with the given arguments
-func (m *Method) Call(self Object, args Tuple) (Object, error) {
+func (m *Method) Call(self Object, args Tuple) (res Object, err error) {
+	defer m.catchBadReceiver(&res, &err)
 	switch f := m.method.(type) {
 	case func(self Object, args Tuple) (Object, error):
 		return f(self, args)
@@ -151,15 +168,19 @@ func (m *Method) Call(self Object, args Tuple) (Object, error) {
 			return nil, ExceptionNewf(TypeError, "%s() takes exactly 1 argument (%d given)", m.Name, len(args))
 		}
 		return f(self, args[0])
+	case InternalMethod:
+		// eval, exec, globals... are implemented inside the VM's call instruction
+		return nil, ExceptionNewf(SystemError, "%s() can only be called from python code", m.Name)
 	}
 	panic(fmt.Sprintf("Unknown method type: %T", m.method))
 }
 
 // Call the method with the given arguments
-func (m *Method) CallWithKeywords(self Object, args Tuple, kwargs StringDict) (Object, error) {
+func (m *Method) CallWithKeywords(self Object, args Tuple, kwargs StringDict) (res Object, err error) {
 	if len(kwargs) == 0 {
 		return m.Call(self, args)
 	}
+	defer m.catchBadReceiver(&res, &err)
 	switch f := m.method.(type) {
 	case func(self Object, args Tuple, kwargs StringDict) (Object, error):
 		return f(self, args, kwargs)
@@ -167,6 +188,8 @@ func (m *Method) CallWithKeywords(self Object, args Tuple, kwargs StringDict) (O
 		func(Object) (Object, error),
 		func(Object, Object) (Object, error):
 		return nil, ExceptionNewf(TypeError, "%s() takes no keyword arguments", m.Name)
+	case InternalMethod:
+		return nil, ExceptionNewf(SystemError, "%s() can only be called from python code", m.Name)
 	}
 	panic(fmt.Sprintf("Unknown method type: %T", m.method))
 }
